@@ -31,4 +31,20 @@ CHECKS = {
         ],
         exhaustive_thorough=False,
     ),
+    "C14": dict(
+        pkg="props/c14", level="exploration",
+        technique="property-based testing (rapid) + exhaustive enumeration of small groups against a validity predicate",
+        level_text=("Validity predicate of the statement (exactly-once, subscribers only, per-topic balance <=1, contiguous / k-th runs, "
+                    "order independence, rack bound) evaluated on every group with <=4 members x 2 topics x <=5 partitions x all listing orders, "
+                    "every rack placement for rack-affinity (<=4 members, <=6 partitions), each rack-affinity case re-run in fresh maps; plus generated groups up to 30 members x 200 partitions."),
+        level_note="RackAffinity map-iteration orders are sampled (6-8 runs per case), not enumerated",
+        rule=("cases = (balancer, members with subscriptions and racks, listed partitions with leader racks, listing permutation); "
+              "enumerated small groups (quick: 1/12 slice chosen by seed) + rapid-generated groups. Non-trivial = some topic has >=2 subscribers and >=1 partition; "
+              "distinct by the full case value (enumerated cases are distinct by construction)."),
+        assumptions=["member ids are distinct and each member lists a topic at most once", "partition ids of a topic are 0..P-1"],
+        units=[
+            dict(run="TestExhaustiveSmall", checks=None, timeout=1800),
+            dict(run="TestRandomGroups", checks_quick=20000, checks_thorough=300000, shards_thorough=4),
+        ],
+    ),
 }
